@@ -28,7 +28,8 @@ LEVEL_TEXT = ("Kernel-checked Lean theorems, for all key columns and payloads (n
               "the map field, and all forms agree (ordered_merge_left_correct, ordered_merge_right_correct, forms_agree, "
               "forms_agree_right; streamed_old_left_map_eq_flat and streamed_old_map_valid_eq_flat state the two driver "
               "refinements on their own); Session.ordered_merge_inner lists exactly the matching pairs for every truthful "
-              "flag combination (including the swapped left-unique kernel used for right_unique only); "
+              "flag combination (including the swapped left-unique kernel used for right_unique only), returned or written "
+              "to Field / zero-initialised ndarray sinks (inner_payloads_all_forms); "
               "Session.merge_left/right/inner return, for numeric and indexed-string payloads, the payloads mapped through "
               "whatever row pairs pandas.merge returned (the relational join by assumption); Session.get_index returns the "
               "matching target row or a marker >= INVALID_INDEX; Session.join puts the value of each run of foreign-key "
